@@ -80,8 +80,9 @@ DED = {
          "marked observation, the last piece ends at the last observation, no marker => empty collection, feature table carried; "
          "segmentation (list and scalar forms): marker = 1 exactly where not comp, comp = AND / OR fold of value <= threshold over the "
          "non-NaN tested features; other columns, coordinates, observations unchanged. Uses the contracts of extract (C04) and of the "
-         "feature-table ADT (C01).",
-         "split on an index list / with limit > 0: bounded only."),
+         "feature-table ADT (C01). split (index-list form, limit = 0, indices in range and non-decreasing): one piece per consecutive "
+         "pair, piece j is exactly the observations source[j] .. source[j+1] in order, feature table carried.",
+         "split with limit > 0 (Track.length, float): bounded only."),
  "C12": ("optimalPartition: interval-DP invariants (GOOD: D[a,b] at least as good as the direct cost; TRI: as good as every split "
          "D[a,k] + D[k,b]; TIGHT: attained via M) for both directions (case split on mode), backtracking (recursive contract with ghost "
          "D, C and a variant) and backward: the result is a strictly increasing list from the first to the last candidate whose summed "
@@ -166,7 +167,7 @@ DED["C07"] = ("Network.run_routing_backward under C06's certificate (predecessor
               "termination of the walk is not proved; ASSUMED network geometry: every listed edge has the listing node as an end, every edge "
               "polyline has >= 2 numeric fixes and runs from its source node's position to its target node's. IEEE rounding of coordinates: "
               "bounded only.")
-DED["C02"] = ("40 operator classes against their documented pointwise definitions written independently of the code (Adder, Substracter, "
+DED["C02"] = ("45 operator classes against their documented pointwise definitions written independently of the code (Adder, Substracter, "
               "Multiplier, Divider with x/0 = NaN, Above, Below, PointwiseEqualer; ScalarAdder, ScalarSubstracter, ScalarRevSubstracter, "
               "ScalarMuliplier, Scalar(Rev)Below / Above; Differentiator, Forward / Backward / Centered / SecondOrder finite differences with "
               "NaN at the ends; Inverter, Square, Diode, Rectifier, Sign, Identity, Inverser, Thresholder through the generic APPLY loop and their "
@@ -174,7 +175,10 @@ DED["C02"] = ("40 operator classes against their documented pointwise definition
               "size and every value incl. NaN and zeros the returned list holds the documented value at every index, is stored under the "
               "output name (created if absent), and every other column, coordinate and observation is unchanged. Read-only aggregates Sum, "
               "Averager (folds over the values that are numbers), Min, Max; Reverser and Log, which store their result through the bracket "
-              "assignment track[name] = list (contract of Track.__setitem__, C01) (40 operator classes in all).",
+              "assignment track[name] = list (contract of Track.__setitem__, C01); Argmax (first index of a largest value above -1e300, NaN never "
+              "selected), Zeros (exactly the indices of the zero values, in increasing order), Debiaser (x - mean(x), proved from the contracts "
+              "of Averager and ScalarAdder through the inlined Track.operate, not from their bodies), Mse (mean of the squares of the values that "
+              "are numbers, not negative), Rmse (r >= 0 and r*r = that mean: from Mse's contract and the sqrt axiom) (45 operator classes in all).",
               "the expression parser (makeRPN, string rewriting, precedence / associativity / parentheses), __evaluateRPN / __applyOperation "
               "dispatch, '=' handling, circular shifts, powers, modulo, transcendental functions and the remaining aggregates: bounded only "
               "(unbounded string recursion is outside any contract within reach). 1/x operators require non-zero inputs (ZeroDivisionError "
